@@ -483,6 +483,48 @@ class SymBool:
     def astype(s, t, *a, **k): return cast_scalar(s, t)
 
 
+def _perfect_square_root(t):
+    """u if the term is syntactically a square u * u: a product in which every factor occurs an even number of times (numeral factors:
+    a perfect-square rational), or u ** 2; else None"""
+    for cand in (t, z3.simplify(t)):
+        k = cand.decl().kind()
+        ch = cand.children()
+        if k == z3.Z3_OP_POWER and len(ch) == 2 and _const_value(ch[1]) == 2:
+            return _real(ch[0])
+        if k != z3.Z3_OP_MUL:
+            continue
+        flat, todo = [], list(ch)
+        while todo:
+            c = todo.pop()
+            if c.decl().kind() == z3.Z3_OP_MUL:
+                todo.extend(c.children())
+            else:
+                flat.append(c)
+        coeff = Fraction(1)
+        groups = {}
+        for c in flat:
+            v = _const_value(c) if (z3.is_int_value(c) or z3.is_rational_value(c)) else None
+            if v is not None:
+                coeff *= Fraction(v)
+            elif c.decl().kind() == z3.Z3_OP_POWER and _const_value(c.children()[1]) == 2:
+                g = groups.setdefault(c.children()[0].get_id(), [c.children()[0], 0])
+                g[1] += 2
+            else:
+                g = groups.setdefault(c.get_id(), [c, 0])
+                g[1] += 1
+        if coeff < 0 or any(n % 2 for _, n in groups.values()):
+            continue
+        n, d = coeff.numerator, coeff.denominator
+        if math.isqrt(n) ** 2 != n or math.isqrt(d) ** 2 != d:
+            continue
+        root = z3.RealVal(f"{math.isqrt(n)}/{math.isqrt(d)}")
+        for c, m in groups.values():
+            for _ in range(m // 2):
+                root = root * _real(c)
+        return root
+    return None
+
+
 def sym_sqrt(x, nonneg=False):
     """sqrt over the reals: fresh r with r >= 0 and r*r == x (side constraint on the path); x >= 0 is
     recorded as a side *obligation* (domain of sqrt) unless the caller built x as a sum of squares (nonneg=True)."""
@@ -494,6 +536,9 @@ def sym_sqrt(x, nonneg=False):
         n, d = fr.numerator, fr.denominator
         if n >= 0 and math.isqrt(n) ** 2 == n and math.isqrt(d) ** 2 == d:
             return Sym(z3.RealVal(f"{math.isqrt(n)}/{math.isqrt(d)}"))
+    root = _perfect_square_root(x.t)
+    if root is not None:
+        return Sym(z3.If(root >= 0, root, -root))          # sqrt(t * t) = |t|: no auxiliary variable needed
     ctx = PathCtx.cur
     if ctx is None:
         raise Unsupported("sqrt of symbolic value outside path context")
